@@ -69,7 +69,10 @@ type c01E2EIn struct {
 	Allow   bool   // bidder registry: allowance >= min allowance
 	Engine  string // accept | reject | silent
 	StoreOK bool   // eth_sendRawTransaction answers with the hash (true) or a JSON-RPC error (false)
-	Bid     c01Bid
+	// transport-level failure of eth_sendRawTransaction (overrides StoreOK, no transaction is accepted):
+	// "http503": every attempt is answered with HTTP 503; "close": the connection is closed without an answer
+	StoreMode string `json:",omitempty"`
+	Bid       c01Bid
 }
 
 type c01E2EObs struct {
@@ -119,6 +122,7 @@ type c01e2eChain struct {
 	mu        sync.Mutex
 	allow     bool
 	storeOK   bool
+	storeMode string
 	preconf   common.Address
 	provReg   common.Address
 	bidderReg common.Address
@@ -213,7 +217,24 @@ func (c *c01e2eChain) serve(w http.ResponseWriter, r *http.Request) {
 		http.Error(w, "parse", http.StatusBadRequest)
 		return
 	}
-	_ = json.NewEncoder(w).Encode(c.answer(&req))
+	resp := c.answer(&req) // records the raw transaction (OK=false in the failure modes)
+	if req.Method == "eth_sendRawTransaction" && c.storeMode != "" {
+		switch c.storeMode {
+		case "http503":
+			http.Error(w, "verif: gateway unavailable", http.StatusServiceUnavailable)
+			return
+		case "close":
+			if hj, ok := w.(http.Hijacker); ok {
+				if conn, _, err := hj.Hijack(); err == nil {
+					conn.Close()
+					return
+				}
+			}
+			http.Error(w, "verif: gateway unavailable", http.StatusServiceUnavailable)
+			return
+		}
+	}
+	_ = json.NewEncoder(w).Encode(resp)
 }
 
 func c01e2eWord(v uint64) string {
@@ -580,7 +601,10 @@ func c01RunE2E(t testing.TB, in c01E2EIn, slow int) (obs c01E2EObs) {
 	}
 
 	// 1. chain + registries
-	chain, err := c01e2eNewChain(in.Allow, in.StoreOK)
+	chain, err := c01e2eNewChain(in.Allow, in.StoreOK && in.StoreMode == "")
+	if chain != nil {
+		chain.storeMode = in.StoreMode
+	}
 	if err != nil {
 		problem("chain: %v", err)
 		return
